@@ -1341,7 +1341,7 @@ JANET_CORE_FN(cfun_channel_close,
                 janet_ev_post_event(vm, janet_thread_chan_cb, msg);
             } else {
                 if (janet_chan_is_threaded(channel)) janet_gcunroot(janet_wrap_fiber(writer.fiber));
-                if (janet_fiber_can_resume(writer.fiber)) {
+                if (writer.sched_id == writer.fiber->sched_id && janet_fiber_can_resume(writer.fiber)) {
                     if (writer.mode == JANET_CP_MODE_CHOICE_WRITE) {
                         janet_schedule(writer.fiber, make_close_result(channel));
                     } else {
@@ -1363,7 +1363,7 @@ JANET_CORE_FN(cfun_channel_close,
                 janet_ev_post_event(vm, janet_thread_chan_cb, msg);
             } else {
                 if (janet_chan_is_threaded(channel)) janet_gcunroot(janet_wrap_fiber(reader.fiber));
-                if (janet_fiber_can_resume(reader.fiber)) {
+                if (reader.sched_id == reader.fiber->sched_id && janet_fiber_can_resume(reader.fiber)) {
                     if (reader.mode == JANET_CP_MODE_CHOICE_READ) {
                         janet_schedule(reader.fiber, make_close_result(channel));
                     } else {
